@@ -49,6 +49,30 @@ def pattern(rng, h, w, kind):
     return v
 
 
+def degenerate_window(src, ref, svals, sv, proc_ref, kernel, r, c):
+    """does the kernel window that decides source pixel (r, c) hold fewer than two distinct source values (no OLS solution)?"""
+    kh, kw = kernel
+    if not proc_ref:
+        win = np.zeros(sv.shape, bool)
+        win[max(r - kh // 2, 0):r + kh // 2 + 1, max(c - kw // 2, 0):c + kw // 2 + 1] = True
+        return len(np.unique(svals[win & sv])) < 2
+    # reference grid: validity of the averaged source (any valid source pixel overlapping), window around the reference pixel
+    # that contains the source pixel's centre
+    def overlap_valid(i, j):
+        y0, y1 = ref.ytop - (i + 1) * ref.py, ref.ytop - i * ref.py
+        x0, x1 = ref.x0 + j * ref.px, ref.x0 + (j + 1) * ref.px
+        r0, r1 = max((src.ytop - y1) // src.py, 0), min(-((-(src.ytop - y0)) // src.py), src.h)
+        c0, c1 = max((x0 - src.x0) // src.px, 0), min(-((-(x1 - src.x0)) // src.px), src.w)
+        return r1 > r0 and c1 > c0 and bool(sv[r0:r1, c0:c1].any())
+    cy = 2 * src.ytop - (2 * r + 1) * src.py          # twice the centre's y
+    cx = 2 * src.x0 + (2 * c + 1) * src.px
+    i = (2 * ref.ytop - cy) // (2 * ref.py)
+    j = (cx - 2 * ref.x0) // (2 * ref.px)
+    n = sum(overlap_valid(a, b) for a in range(i - kh // 2, i + kh // 2 + 1) for b in range(j - kw // 2, j + kw // 2 + 1)
+            if 0 <= a < ref.h and 0 <= b < ref.w)
+    return n < 2
+
+
 def gen_case(run, i):
     rng = run.rng(i)
     model = MODELS[i % 3]
@@ -142,10 +166,60 @@ def run(run: common.Run):
                 lost = lost & ~coincide if case['out_dtype'] != 'float32' else lost
             if lost.any():
                 rr, cc = np.argwhere(lost)[0]
+                sig = dict(kind='lost-pixel')
+                if case['model'] == 'gain-offset' and case['thresh'] is None and \
+                        all(degenerate_window(src, ref, s[0], sv, proc_ref, case['kernel'], r_, c_) for r_, c_ in np.argwhere(lost)):
+                    # finding D17: without in-painting the two-parameter fit has no solution in a window that holds a single
+                    # jointly valid pixel (or a constant source), and the pixel is lost
+                    sig['degenerate_window'] = True
                 run.fail(case, f'valid source pixel ({rr},{cc}) is invalid in the corrected image ({int(lost.sum())} lost '
-                         f'pixels; hypotheses of the converse hold)', signature=dict(kind='lost-pixel'))
+                         f'pixels; hypotheses of the converse hold)', signature=sig)
                 continue
         run.sample(dict(case={k: case[k] for k in ('i', 'model', 'kernel', 'halvings', 'pattern', 'upsampling', 'out_nodata',
                                                    'out_dtype', 'hyp', 'proc')}, valid_src=int(sv.sum()),
                         valid_corr=int(cm.sum())), 4)
+    isolated_pixel_leg(run, tmp)
     resamp.check_resampler(run, 45 if run.quick() else 600)
+
+
+def isolated_pixel_leg(run, tmp):
+    """finding D17, reproduced on every run: an isolated valid source pixel under the gain-offset model without in-painting"""
+    from fractions import Fraction
+    for k, proc_src in enumerate((True, False)):
+        if proc_src:    # source coarser: processing on the source grid
+            src = rasters.Grid(8 * 5000 + 24, 8 * 7000 - 24, 24, 24, 6, 9)
+            ref = rasters.Grid(8 * 5000, 8 * 7000, 8, 8, 24, 33)
+        else:
+            src = rasters.Grid(8 * 5000 + 16, 8 * 7000 - 16, 8, 8, 18, 27)
+            ref = rasters.Grid(8 * 5000, 8 * 7000, 24, 24, 8, 11)
+        rng = run.rng(f'isolated{k}')
+        s = np.array([[[rng.randint(20, 200) for _ in range(src.w)] for _ in range(src.h)]], float)
+        r = np.array([[[rng.randint(30, 150) for _ in range(ref.w)] for _ in range(ref.h)]], float)
+        sv = np.ones((src.h, src.w), bool)
+        # a block of invalid pixels with one valid pixel (group) in its middle, wider than the kernel
+        n = 7 if proc_src else 21
+        sv[:n, :] = False
+        if proc_src:
+            sv[3, 3] = True
+        else:
+            sv[9:12, 9:12] = True   # exactly one reference pixel's worth of source pixels
+        pair = fusion.write_pair(tmp, f'c03iso{k}', src, ref, s, r, sv, None)
+        case = dict(i=950_000 + k, op='isolated valid pixel', model='gain-offset', kernel=(3, 3), thresh=None, proc='auto',
+                    src=src.to_dict(), ref=ref.to_dict())
+        try:
+            res = fusion.run_fuse(pair.src_path, pair.ref_path, tmp / 'c03iso_out.tif', model='gain-offset', kernel_shape=(3, 3),
+                                  param=False, threads=1, model_config=dict(upsampling='nearest', r2_inpaint_thresh=None))
+        except Exception as ex:
+            run.fail(case, f'fusion raised {type(ex).__name__}: {ex}', signature=dict(kind='raises'))
+            continue
+        run.evaluations += 1
+        run.hist['isolated-pixel cases'] += 1
+        lost = sv & ~res.corr_mask
+        if (res.corr_mask & ~sv).any():
+            run.fail(case, 'a corrected pixel is valid where the source is not', signature=dict(kind='invented-pixel'))
+        elif lost.any():
+            rr, cc = np.argwhere(lost)[0]
+            deg = all(degenerate_window(src, ref, s[0], sv, not proc_src, (3, 3), r_, c_) for r_, c_ in np.argwhere(lost))
+            run.fail(case, f'valid source pixel ({rr},{cc}) is invalid in the corrected image ({int(lost.sum())} lost pixels; an isolated '
+                     f'valid pixel, gain-offset without in-painting)',
+                     signature=dict(kind='lost-pixel', degenerate_window=True) if deg else dict(kind='lost-pixel'))
